@@ -717,18 +717,18 @@ def _pl_lock(eng, st, args, dty, callee, m):
     return args[0]
 
 
-@summary(r"^std::sync::atomic::Atomic(Bool|U64|Usize|U32)::load$", "atomic load (single-threaded)")
+@summary(r"^std::sync::atomic::Atomic(Bool|U64|Usize|U32|::<.*>)::load$", "atomic load (single-threaded)")
 def _atomic_load(eng, st, args, dty, callee, m):
     return eng.load(st, args[0])
 
 
-@summary(r"^std::sync::atomic::Atomic(Bool|U64|Usize|U32)::store$", "atomic store (single-threaded)")
+@summary(r"^std::sync::atomic::Atomic(Bool|U64|Usize|U32|::<.*>)::store$", "atomic store (single-threaded)")
 def _atomic_store(eng, st, args, dty, callee, m):
     eng.store(st, args[0], args[1])
     return UNIT
 
 
-@summary(r"^std::sync::atomic::Atomic(Bool|U64|Usize|U32)::new$", "atomic new")
+@summary(r"^std::sync::atomic::Atomic(Bool|U64|Usize|U32|::<.*>)::new$", "atomic new")
 def _atomic_new(eng, st, args, dty, callee, m):
     return args[0]
 
@@ -797,6 +797,7 @@ def _anyhow(eng, st, args, dty, callee, m):
 
 def _install_more():
     import summaries_coll  # noqa: F401  (registers its entries)
+    import summaries_iter  # noqa: F401
 
 
 _install_more()
